@@ -12,6 +12,9 @@ InObs(r, es) == [k \in 1..Len(es) |-> LET j == CHOOSE j \in 1..Len(r.entries_in)
                                                   <<r.entries_in[j][1], r.entries_in[j][2], r.entries_in[j][3], r.entries_in[j][4]>> = es[k]
                                       IN <<r.entries_in[j][1], r.entries_in[j][2], r.entries_in[j][3], r.entries_in[j][5]>>]
 IsErr(out) == Len(out) > 4 /\ SubSeq(out, 1, 4) = "err:"
+AllRecognised(num, es) == \A k \in 1..Len(es) : Code(num, es[k]) >= 0
+CountIn(seq, x) == Cardinality({i \in 1..Len(seq) : seq[i] = x})
+SameBag(a, b) == Len(a) = Len(b) /\ \A i \in 1..Len(a) : CountIn(a, a[i]) = CountIn(b, a[i])
 Prefix(a, b) == Len(a) <= Len(b) /\ SubSeq(b, 1, Len(a)) = a
 
 BiasOk(r) ==
@@ -33,7 +36,16 @@ BiasOk(r) ==
               /\ r.dec = "typed"
               /\ r.entries_out = InObs(r, Regrouped(num, es))
 
-TraceBias == IsEvent("Bias") /\ BiasOk(Rec[l]) = TRUE
+(* "... or lost to a count field that wrapped": more than 31 entries for one satellite (necessarily with repeated signals) do *)
+(* not fit the 5-bit per-satellite count, however they are spread over the list.  The code answers with an error; an encoder  *)
+(* that wrote several groups for the satellite would also do; a frame from which entries have disappeared would not.         *)
+Over31Ok(r) ==
+    LET es == In4(r)
+        num == r.number IN
+    (num # 1230 /\ AllRecognised(num, es) /\ ~OneGroupEach(num, es) /\ ~MustErr(num, es) /\ r.out = "ok") =>
+        (r.dec = "typed" /\ SameBag(r.entries_out, InObs(r, es)))
+
+TraceBias == IsEvent("Bias") /\ BiasOk(Rec[l]) = TRUE /\ Over31Ok(Rec[l]) = TRUE
 Init == l = 1
 Next == TraceBias
 Explain(r) == [pre |-> Pre(r.number, In4(r)), must_err |-> MustErr(r.number, In4(r)), out |-> r.out, class |-> r.class,
